@@ -147,6 +147,8 @@ pub struct World {
     any_panic: bool,
     dropped_targets: Vec<usize>,
     c14: Vec<(usize, usize)>,
+    /// oracle failures found while executing the op itself (reported with the op's oracle line)
+    act_fails: Vec<String>,
 }
 
 thread_local! {
@@ -385,6 +387,28 @@ pub fn apply_act(a: &Act, me: Option<&Node>) {
             let id = w.wroot_ids[i];
             w.wroots.push(c);
             w.wroot_ids.push(id);
+        }),
+        Act::WeakRaw(wi) => with(|w| {
+            // `Weak::as_ptr`, `into_raw`, `from_raw`: an identity on the handle (no action of the model; the driver
+            // treats the line as a no-op); the pointer must be the object's value address whether or not it is alive
+            if w.wroots.is_empty() {
+                return;
+            }
+            let i = idx(w.wroots.len(), wi);
+            let id = w.wroot_ids[i];
+            let want = w.objs[id].ptr;
+            let before = w.wroots[i].as_ptr() as usize;
+            let wk = w.wroots.remove(i);
+            let raw = wk.into_raw();
+            let back = unsafe { Weak::from_raw(raw) };
+            let after = back.as_ptr() as usize;
+            if before != want || raw as usize != want || after != want {
+                w.act_fails.push(format!(
+                    "O6:weak-{}-to-object-{}-as_ptr-{:x}-into_raw-{:x}-after-round-trip-{:x}-value-at-{:x}",
+                    i, id, before, raw as usize, after, want
+                ));
+            }
+            w.wroots.insert(i, back);
         }),
         Act::DropWeak(wi) => {
             let h = with(|w| {
@@ -845,6 +869,7 @@ fn oracles(w: &mut World, pre_lower: &[usize], out: &mut String) {
         }
     }
     let mut fails: Vec<String> = Vec::new();
+    fails.extend(w.act_fails.drain(..));
     // O1: everything reachable from the program is alive and intact
     let mut reach = vec![false; n];
     let mut stack: Vec<usize> = (0..n).filter(|&o| ext[o] > 0).collect();
@@ -1085,7 +1110,7 @@ pub fn run_case(name: &str, ops: &[(String, Op)], cleanup: bool, out: &mut Strin
     W.with(|w| *w.borrow_mut() = World::default());
     with(|w| w.contract_ok = true);
     let _ = sh_trace_counters();
-    at::drain_freed(|_| {});
+    at::drain_events(|_, _| {});
     let _ = writeln!(out, "case {}", name);
     let bytes0 = at::LIVE_BYTES.load(Relaxed);
     let boxes0 = at::LIVE_RCBOX.load(Relaxed);
@@ -1108,7 +1133,7 @@ pub fn run_case(name: &str, ops: &[(String, Op)], cleanup: bool, out: &mut Strin
             let _ = writeln!(out, "note teardown-panic");
         }
     }
-    at::drain_freed(|_| {});
+    at::drain_events(|_, _| {});
     W.with(|w| *w.borrow_mut() = World::default());
     let leak = at::LIVE_BYTES.load(Relaxed) - bytes0;
     let boxes = at::LIVE_RCBOX.load(Relaxed) - boxes0;
@@ -1219,6 +1244,18 @@ fn run_ops(ops: &[(String, Op)], cleanup: bool, out: &mut String, boxes0: isize,
                 let i = r % w.raws.len();
                 lower_bound(w, w.raw_ids[i])
             }
+            // `make_mut` on a shared object releases the program's handle to the original after cloning the value:
+            // when the clone holds no handles (shallow `Clone`, or nothing to copy) that release is an ordinary drop
+            Op::Act(Act::MakeMut(r)) if !w.roots.is_empty() && w.contract_ok && !w.any_panic => {
+                let i = r % w.roots.len();
+                let x = w.root_ids[i];
+                let h = &w.roots[i];
+                if w.is_live(x) && Rc::strong_count(h) != 1 && (h.shallow.get() || (w.objs[x].val.held.is_empty() && w.objs[x].val.weaks.is_empty())) {
+                    lower_bound(w, x)
+                } else {
+                    (vec![], false)
+                }
+            }
             _ => (vec![], false),
         });
         with(|w| {
@@ -1259,11 +1296,21 @@ fn run_ops(ops: &[(String, Op)], cleanup: bool, out: &mut String, boxes0: isize,
             }
             // releases observed by the allocator
             let mut freed: Vec<usize> = Vec::new();
-            at::drain_freed(|b| {
-                // a released block of the `RcBox<Node>` layout that was never registered as an
-                // object is not an object (e.g. a `Vec<(Node, Links)>` buffer of the library
-                // that happens to have the same size and alignment): not part of `F`
-                if let Some(&o) = w.by_block.get(&b) {
+            // a released block of the `RcBox<Node>` layout that was never registered as an object is not an
+            // object (e.g. a `Vec<(Node, Links)>` buffer of the library that happens to have the same size and
+            // alignment): not part of `F`.  Such a buffer may sit at the address of an object released earlier
+            // in the same operation, hence the events are replayed in order: a block allocated during the
+            // operation is "fresh" (the harness has not seen a handle to it yet) and its release is foreign.
+            let mut fresh: std::collections::HashSet<usize> = std::collections::HashSet::new();
+            at::drain_events(|b, is_alloc| {
+                if is_alloc {
+                    fresh.insert(b);
+                } else if fresh.remove(&b) {
+                    // foreign buffer, or an object created and released inside one operation (none of the
+                    // operations of the alphabet does that)
+                } else if let Some(&o) = w.by_block.get(&b) {
+                    // (a second release of the same block without an allocation in between never gets here:
+                    // the allocator shim refuses it and counts a double free)
                     freed.push(o);
                 }
             });
